@@ -227,13 +227,16 @@ def create_equation_from_terms(terms):
     """
     if len(terms) == 0:
         return ''
+    # Work on a copy; the caller's list is left alone.
+    terms = list(terms)
     for i in range(0, len(terms)):
         term = terms[i].strip()
         if not term[0] in ('+', '-'):
             term = '+' + term
         terms[i] = term
     if terms[0][0] == '+':
-        terms[0] = terms[0].replace('+', '')
+        # Only the leading '+' is dropped.
+        terms[0] = terms[0][1:]
     eqn = ''.join(terms)
     return eqn
 
